@@ -58,6 +58,18 @@ Theorem import_exposes_exactly : forall W i l to from immutp,
 Proof. exact import_exposes_exactly_proof. Qed.
 Print Assumptions import_exposes_exactly.
 
+From ChibiV Require Import C14.EndToEnd.
+Theorem import_end_to_end : forall W i f to from immutp,
+  wf_iset i -> isize i + max_exports W < f -> chibi_ok W i -> unambiguous W i -> to <> nil ->
+  (forall n m, denotes W i n m -> env_cell from m <> None) ->
+  exists ids l,
+    resolve_import f (enc_world W) (enc i) = Ok (Pair (enc_lib (lib_of i)) ids) /\ abs_ids ids = Some l /\
+    forall n,
+      (forall m, denotes W i n m -> env_cell (env_import to from (Some l) immutp) n = env_cell from m) /\
+      ((forall m, ~ denotes W i n m) -> env_cell (env_import to from (Some l) immutp) n = env_cell to n).
+Proof. exact import_end_to_end_proof. Qed.
+Print Assumptions import_end_to_end.
+
 (** the module table (meta-7.scm find-module / load-module / eval-module) *)
 From ChibiV Require Import C14.Load C14.LoadInv C14.LoadProofs.
 
@@ -94,6 +106,18 @@ Theorem cyclic_import_detected : forall d l f,
   clos_trans_1n _ (imports d) l l -> snd (load_module f d init_state l) <> Done.
 Proof. exact cyclic_import_detected_proof. Qed.
 Print Assumptions cyclic_import_detected.
+
+From ChibiV Require Import C14.LoadLive.
+Theorem loadable_loads : forall d f l, loadable f d nil l = true ->
+  exists st', load_module f d init_state l = (st', Done) /\ exists e, env_of st' l = Some e.
+Proof. exact loadable_loads_proof. Qed.
+Print Assumptions loadable_loads.
+
+From ChibiV Require Import C14.LoadMissing.
+Theorem missing_import_detected : forall d l x f,
+  clos_refl_trans_1n _ (imports d) l x -> lookup x d = None -> snd (load_module f d init_state l) <> Done.
+Proof. exact missing_import_detected_proof. Qed.
+Print Assumptions missing_import_detected.
 
 Theorem cyclic_import_detected_bounded : forall g l, In g graphs3 -> In l (0 :: 1 :: 2 :: 3 :: nil) ->
   check_single (defs_of g) l = true.
